@@ -5,6 +5,6 @@ S=$(mktemp -d /tmp/bgv-try-XXXX)
 rsync -a --exclude target --exclude .git /repo/ $S/repo/
 (cd $S/repo && patch -p1 --no-backup-if-mismatch -i "$P" >/dev/null) || { echo "PATCH FAILED"; rm -rf $S; exit 2; }
 for prop in "$@"; do
-  BGV_REPO=$S/repo BGV_EVIDENCE_DIR=$S/ev /verif/bin/check $prop quick 2>&1 | grep -E "^  R|^C[0-9]+ quick|TOOL|does not compile" | cut -c1-200
+  BGV_REPO=$S/repo BGV_EVIDENCE_DIR=$S/ev /verif/bin/check $prop quick 2>&1 | grep -E "^  R|^C[0-9]+ quick|TOOL|the tree does not compile" | cut -c1-200
 done
 rm -rf $S
